@@ -154,20 +154,41 @@ def run(ctx):
             o.holds(f, sc.def_stmt(H), f"works on {H} = {G}.copy()")
             # node removal: exactly nodes not in ak + {i}
             rm = [n for n in astx.walk_fn(f.node) if isinstance(n, ast.Call) and isinstance(n.func, ast.Attribute) and n.func.attr in ("remove_node", "remove_nodes_from")]
+            def _judge(n_, it_txt, facts, where):
+                full = it_txt in (f"{G}.nodes()", f"{G}.nodes", f"list({G}.nodes())", f"list({H}.nodes())", f"list({G})", f"list({H})", G, f"{H}.copy()", f"list({H}.nodes)", f"list({G}.nodes)")
+                got = rules.canon_facts(facts)
+                want = {rules.canon_fact(astx.pat(f"{n_} == {i}"), False), rules.canon_fact(astx.pat(f"{n_} in {ak}"), False)}
+                understood = all(isinstance(e_, ast.Compare) and len(e_.ops) == 1 and astx.names_in(e_) <= {n_, i, ak} for e_, _ in
+                                 [(x_[0].operand if isinstance(x_[0], ast.UnaryOp) else x_[0], x_[1]) for x_ in facts])
+                if full and got == want:
+                    o.holds(f, where, f"removes exactly the nodes outside {ak} + {{{i}}}")
+                elif full and facts and understood:
+                    shown = " and ".join((t_ if p_ else f"not ({t_})") for t_, p_ in sorted(got))
+                    o.violated(f, where, f"a vertex is removed when `{shown}`; the kept set must be exactly `{n_} == {i} or {n_} in {ak}`")
+                elif full and not facts:
+                    o.violated(f, where, f"every vertex is removed unconditionally; the kept set must be exactly `{n_} == {i} or {n_} in {ak}`")
+                else:
+                    o.undecided("node removal loop not recognised", f, where)
+
             if len(rm) == 1 and txt(rm[0].func.value) == H and rm[0].func.attr == "remove_node" and par.loops_of(rm[0]):
                 lp = par.loops_of(rm[0])[0]
                 n_ = txt(lp.target)
-                ifs = [s for s in lp.body if isinstance(s, ast.If)]
-                full = txt(lp.iter) in (f"{G}.nodes()", f"{G}.nodes", f"list({G}.nodes())", f"list({H}.nodes())", f"list({G})")
-                keep_ok = len(ifs) == 1 and isinstance(ifs[0].test, ast.BoolOp) and isinstance(ifs[0].test.op, ast.Or) \
-                    and sorted(txt(v) for v in ifs[0].test.values) == sorted([f"{n_} == {i}", f"{n_} in {ak}"]) \
-                    and len(ifs[0].body) == 1 and isinstance(ifs[0].body[0], ast.Continue) and txt(rm[0].args[0]) == n_
-                if full and keep_ok:
-                    o.holds(f, rm[0], f"removes exactly the nodes outside {ak} + {{{i}}}")
-                elif full and ifs:
-                    o.violated(f, ifs[0], f"kept vertex set is decided by `{txt(ifs[0].test)}`, expected `{n_} == {i} or {n_} in {ak}`")
-                else:
+                if txt(rm[0].args[0]) != n_:
                     o.undecided("node removal loop not recognised", f, lp)
+                else:
+                    # the keep test may be `if keep: continue`, an enclosing `if not keep:` or an else branch: all path conditions
+                    _judge(n_, txt(lp.iter), rules.known_facts(par, rm[0], upto=lp), rm[0])
+            elif len(rm) == 1 and txt(rm[0].func.value) == H and rm[0].func.attr == "remove_nodes_from" and rm[0].args \
+                    and isinstance(sc.resolve(rm[0].args[0]), (ast.ListComp, ast.GeneratorExp, ast.SetComp)) and len(sc.resolve(rm[0].args[0]).generators) == 1:
+                comp = sc.resolve(rm[0].args[0])
+                g_ = comp.generators[0]
+                if txt(comp.elt) == txt(g_.target):
+                    facts = []
+                    for c_ in g_.ifs:
+                        facts += rules.cond_atoms(c_, True)
+                    _judge(txt(g_.target), txt(g_.iter), facts, rm[0])
+                else:
+                    o.undecided("node removal not recognised", f, rm[0])
             else:
                 o.undecided("node removal not recognised", f)
             # combinations over all edges of H, k at a time
